@@ -1,6 +1,7 @@
 package main
 
 import (
+	"math/rand"
 	"bytes"
 	"context"
 	"fmt"
@@ -121,6 +122,40 @@ func c07Corpus() []c07Prog {
 		p.Flow("A", "S", "")
 		p.Flow("S", "end", "")
 		mk("sub-process without a start event", p, "", nil, []string{"A"}, "")
+	}
+	{ // a process with two start events (StartAll starts a token at each)
+		p := &Prog{}
+		p.Node("start", "start")
+		p.Node("start", "start2")
+		p.Node("task", "A")
+		p.Node("task", "B")
+		p.Node("end", "end")
+		p.Node("end", "end2")
+		p.Flow("start", "A", "")
+		p.Flow("A", "end", "")
+		p.Flow("start2", "B", "")
+		p.Flow("B", "end2", "")
+		mk("two start events", p, "", nil, []string{"A"}, "")
+	}
+	{ // seeded block programs of the C01 generator (all block kinds, sub-processes, loops, end events inside branches):
+		// tasks with an odd number are answered at once, the others stay pending
+		rng := rand.New(rand.NewSource(7))
+		for i := 0; i < 8; i++ {
+			g := &blkGen{rng: rng, full: true, ends: i%2 == 1}
+			b := g.gen(5+rng.Intn(6), 3, true)
+			if i%3 == 0 {
+				b = g.wrap(b, 1+rng.Intn(2))
+			}
+			var auto []string
+			for t := 1; t <= g.ntask; t += 2 {
+				auto = append(auto, fmt.Sprintf("T%d", t))
+			}
+			vars := map[string]any{"v3": false}
+			for v := 0; v < 3; v++ {
+				vars[fmt.Sprintf("v%d", v)] = rng.Intn(2) == 0
+			}
+			out = append(out, c07Prog{"block program " + b.Coq(), BlkProg(b).XML(""), vars, auto, ""})
+		}
 	}
 	{ // timer catch event waiting
 		p := &Prog{}
